@@ -153,6 +153,14 @@ def accessors(cx, u1):
                 ham.data = H
         cx.check_div_obligations("finite")
         tag = "nested" if outer else "plain"
+        # rotating-wave reference energies set while the units context is active
+        octx2 = qr.energy_units(outer) if outer else contextlib.nullcontext()
+        with octx2:
+            with qr.energy_units(u1):
+                ham.set_rwa([0, 1])
+        cx.check_div_obligations("finite")
+        cx.prove_eq(tag + "/stored_rwa", ham.rwa_energies, numpy.array([ham._data[0, 0], ham._data[1, 1]]),
+                    tol=1e-9)
         cx.prove_eq(tag + "/stored_axis_start", fa._start, to_internal(v, u1), tol=1e-9)
         cx.prove_eq(tag + "/stored_axis_step", fa._step, to_internal(w, u1), tol=1e-9)
         cx.prove_eq(tag + "/stored_mol_energy", mol.elenergies[1], to_internal(v, u1), tol=1e-9)
@@ -165,7 +173,9 @@ def accessors(cx, u1):
             r_mol = mol.get_energy(1)
             r_coup = agg.get_resonance_coupling(0, 1)
             r_ham = ham.data
+            r_skel = ham.get_RWA_skeleton()
         cx.check_div_obligations("finite")
+        cx.prove_eq("rwa_skeleton[%s]" % u2, r_skel[1], from_internal(ham._data[1, 1], u2), tol=1e-9)
         cx.prove_eq("axis_start[%s]" % u2, r_start, from_internal(to_internal(v, u1), u2), tol=1e-9)
         cx.prove_eq("axis_step[%s]" % u2, r_step, from_internal(to_internal(w, u1), u2), tol=1e-9)
         cx.prove_eq("mol_energy[%s]" % u2, r_mol, from_internal(to_internal(v, u1), u2), tol=1e-9)
@@ -196,7 +206,7 @@ class _Boom(Exception):
     pass
 
 
-def _nested(cx, m, units, raise_at, depth=0, trace=""):
+def _nested(cx, m, units, raise_at, depth=0, trace="", ctxs=None):
     """enter the contexts in `units` one inside the other; raise at depth raise_at (or never);
     after every block, normal or exceptional, the units and the context counter are back"""
     import quantarhei as qr
@@ -207,11 +217,11 @@ def _nested(cx, m, units, raise_at, depth=0, trace=""):
     before_u = m.get_current_units("energy")
     before_c = m._in_eu_count
     try:
-        with qr.energy_units(units[depth]):
+        with (ctxs[depth] if ctxs is not None else qr.energy_units(units[depth])):
             cx.prove("inside%s" % trace, m.get_current_units("energy") == units[depth])
             if raise_at == depth:
                 raise _Boom()
-            _nested(cx, m, units, raise_at, depth + 1, trace + "." + units[depth])
+            _nested(cx, m, units, raise_at, depth + 1, trace + "." + units[depth], ctxs)
             cx.prove("inner_restored%s" % trace, m.get_current_units("energy") == units[depth])
     except _Boom:
         pass
@@ -227,10 +237,12 @@ def _nested(cx, m, units, raise_at, depth=0, trace=""):
          functions=[F_M + ":energy_units.__enter__", F_M + ":energy_units.__exit__",
                     F_M + ":Manager.set_current_units", F_M + ":Manager.get_current_units"],
          bound="every well-nested program of <=3 (thorough 4) energy-units contexts over 3 (4) units with an "
-               "exception raised at any depth or not at all",
+               "exception raised at any depth or not at all; each program also with context objects constructed in "
+               "advance and entered later",
          out="threads")
 def context_nesting(cx, maxdepth, units):
     import itertools
+    import quantarhei as qr
     from quantarhei.core.managers import Manager
     m = Manager()
     n = 0
@@ -241,7 +253,14 @@ def context_nesting(cx, maxdepth, units):
                     _nested(cx, m, list(us), raise_at, 0, "[%s|%s]" % (",".join(us), raise_at))
                 except _Boom:
                     pass
-                n += 1
+                # the same program with the context objects created in advance (outside every
+                # context) and entered later, as user scripts do (e_units = energy_units("1/cm"))
+                ctxs = [qr.energy_units(u) for u in us]
+                try:
+                    _nested(cx, m, list(us), raise_at, 0, "pre[%s|%s]" % (",".join(us), raise_at), ctxs)
+                except _Boom:
+                    pass
+                n += 2
     cx.note("programs: %d" % n)
 
 
